@@ -355,6 +355,14 @@ func (s *Sched) Drain(maxSteps int) {
 	s.parked = nil
 }
 
+// Quiescent reports whether nothing is parked and every harness task has
+// finished.  Only then may the root call blocking APIs of the code under test
+// (a parked task may hold one of its locks).  Root context, after Run.
+func (s *Sched) Quiescent() bool {
+	s.settle()
+	return len(s.parked) == 0 && s.live == 0
+}
+
 // LiveSpawned names the goroutines started by instrumented code (not harness
 // tasks) that have been born and have not ended, with the site of the go
 // statement that started them.  Root context, when the scheduler is settled.
